@@ -127,6 +127,10 @@ def build_case(desc):
         prog = prelude() + wrap(level(list(spec), 0), w)
         return {"prog": prog, "tags": ["depth:%d" % len(spec), "wrap:" + w] + ["%s+%s" % (c, j) for c, j, g in spec],
                 "trace": True, "keep_trace": True, "check_diag": True, "meta": {"spec": spec, "wrap": w}}
+    if desc[0] == "progen":
+        from .. import progen as G
+        prog, g = G.generate(desc[1], p_fail=0.2)
+        return {"prog": prog, "tags": ["random-program"], "trace": True, "keep_trace": True}
     if desc[0] == "snap":
         return {"prog": snapshot_cases()[desc[1]], "tags": ["snapshot:" + desc[1]], "trace": True, "keep_trace": True}
     raise ValueError(desc)
@@ -152,6 +156,8 @@ def run(rep, tier):
         descs.append(("nest", tuple(rng.choice(cells) for _ in range(d)), rng.choice(WRAPS)))
     for name in SNAP:
         descs.append(("snap", name))
+    for _ in range(1500 if tier == "quick" else 40000):
+        descs.append(("progen", rng.randrange(1 << 40)))
     signals = {}
     auto = {"logs": 0, "frames": 0}
 
@@ -167,6 +173,8 @@ def run(rep, tier):
         for rule, what in viol[:3]:
             from .. import printer as P
             case = build_case(res["desc"])
+            if case.get("skip"):
+                continue
             rep.violation("C07/automaton/" + rule, "event log breaks the escape-propagation automaton: " + what,
                           {"src": P.render(case["prog"]).text, "oracle": "escape automaton over the statement event log", "desc": repr(res["desc"]),
                            "trace_tail": tr[-1500:]})
